@@ -15,8 +15,60 @@ pub fn cfg_for(tier: u64) -> GenCfg {
     cfg
 }
 
+/// Structured family aimed at loop exit conditions that depend on an exact numeric coincidence (random styles never hit them):
+/// a flex line whose min- and max-violations cancel exactly (total violation == 0 with individual violations != 0), items
+/// with flex factors summing to exactly 1 / to 0, zero-sized containers, grids whose fr tracks / limits tie exactly.
+fn coincidence_case(rng: &mut Rng) -> (NodeSpec, Size<AvailableSpace>, bool) {
+    let n = 2 + rng.below(3) as usize;
+    let share = *rng.pick(&[10.0f32, 25.0, 50.0, 64.0]);
+    let d = *rng.pick(&[1.0f32, 5.0, 10.0, 0.5]);
+    let total = share * n as f32;
+    let column = rng.chance(1, 2);
+    let kind = rng.below(4);
+    let mut children = vec![];
+    for k in 0..n {
+        let mut s = Style { flex_grow: 1.0, flex_shrink: 1.0, flex_basis: length(0.0), ..Default::default() };
+        let (mn, mx): (Option<f32>, Option<f32>) = match kind {
+            // one item lifted by d to its min, another cut by d to its max: the violations cancel
+            0 => match k { 0 => (Some(share + d), None), 1 => (None, Some(share - d)), _ => (None, None) },
+            // shrinking variant
+            1 => {
+                s.flex_basis = length(2.0 * share);
+                match k { 0 => (Some(share + d), None), 1 => (None, Some(share - d)), _ => (None, None) }
+            }
+            // flex factors summing to exactly 1 / to less than 1
+            2 => {
+                s.flex_grow = 1.0 / n as f32;
+                (None, None)
+            }
+            // everything frozen from the start: zero factors, min > max
+            _ => {
+                s.flex_grow = 0.0;
+                s.flex_shrink = 0.0;
+                (Some(share + d), Some(share - d))
+            }
+        };
+        let dim = |v: Option<f32>| v.map(Dimension::length).unwrap_or(Dimension::auto());
+        if column {
+            s.min_size.height = dim(mn);
+            s.max_size.height = dim(mx);
+        } else {
+            s.min_size.width = dim(mn);
+            s.max_size.width = dim(mx);
+        }
+        children.push(NodeSpec::leaf(s));
+    }
+    let mut root = Style { display: Display::Flex, ..Default::default() };
+    root.flex_direction = if column { FlexDirection::Column } else { FlexDirection::Row };
+    root.size = if column { Size { width: auto(), height: length(total) } } else { Size { width: length(total), height: auto() } };
+    (NodeSpec { style: root, ctx: None, children }, Size::MAX_CONTENT, rng.chance(1, 2))
+}
+
 pub fn case(seed: u64, idx: u64) -> (NodeSpec, Size<AvailableSpace>, bool) {
     let mut rng = Rng::new(seed.wrapping_mul(0x9E37_79B9).wrapping_add(idx));
+    if idx % 10 == 7 {
+        return coincidence_case(&mut rng);
+    }
     let mut cfg = cfg_for(0);
     // a third of the cases concentrate on grids with line placements
     if idx % 3 == 0 {
